@@ -516,6 +516,37 @@ pub fn generate(ctx: &mut Ctx) {
     ] {
         ctx.case("fixed:json", &format!("json {}", vx::h(j)));
     }
+    // every zone name of the bundled database - as the city alone, as the full id, under a wrong / unknown / empty region -
+    // and unknown city-style names, one after the other in ONE process: whatever a decoder keeps between calls (a name
+    // table, a cache with a size bound, an alias map) has seen several hundred distinct names when the last ones arrive
+    {
+        let mut names: Vec<String> = Vec::new();
+        for tz in chrono_tz::TZ_VARIANTS.iter() {
+            let id = tz.name();
+            let city = id.rsplit('/').next().unwrap_or(id);
+            let short = id.split_once('/').map_or(id, |x| x.1);
+            names.push(short.to_string());
+            if ctx.rng.chance(1, 6) {
+                names.push(id.to_string());
+            }
+            if ctx.rng.chance(1, 12) {
+                names.push(format!("Asia/{city}"));
+                names.push(format!("Nowhere/{city}"));
+                names.push(format!("/{city}"));
+                names.push(format!("{city}/"));
+                names.push(format!("{city}_{}", names.len()));
+            }
+        }
+        for old in ["Kiev", "Kyiv", "Calcutta", "Kolkata", "Saigon", "Ho_Chi_Minh", "Katmandu", "Kathmandu", "Rangoon", "Yangon", "Asia/Kiev", "Europe/Kyiv", "Europe/Calcutta", "America/Kiev"] {
+            names.push(old.to_string());
+        }
+        for n in &names {
+            let z = format!("2021-06-01T12:00:00+01:00 {n}");
+            ctx.case("zones:dec", &format!("dec {}", vx::h(&z)));
+            let j = format!("{{\"_kind\":\"dateTime\",\"val\":\"2021-06-01T12:00:00+01:00\",\"tz\":\"{n}\"}}");
+            ctx.case("zones:json", &format!("json {}", vx::h(&j)));
+        }
+    }
     // chunked / interrupted / failing readers
     let ndocs = ctx.n(12, 100).min(docs.len() as u64) as usize;
     for d in docs.iter().take(ndocs) {
